@@ -253,8 +253,8 @@ def main():
             'obligations': proved_obl, 'discharged': proved_dis,
             'checker_cmd': 'goto-cc <flags> --function h_<fn> proofs/<tu>.c; goto-instrument --unwindset <contract-less loops> --unwinding-assertions; '
                            'goto-instrument --dfcc h_<fn> --enforce-contract[-rec] f --replace-call-with-contract g --apply-loop-contracts; '
-                           'cbmc --bounds-check --pointer-check --signed-overflow-check --div-by-zero-check --pointer-overflow-check --json-ui (CBMC 6.11.0, MiniSat)',
-            'trusted_base': sorted(trusted) + ['CBMC 6.11.0 front end, DFCC instrumentation and MiniSat', 'LP64, two\'s complement, arithmetic >> on negative ints, IEEE-754 binary32 RNE'],
+                           'cbmc --bounds-check --pointer-check --signed-overflow-check --div-by-zero-check --pointer-overflow-check --json-ui (CBMC 6.11.0, CaDiCaL); plain-cbmc groups: goto-cc; [goto-instrument --replace-calls f:g]; cbmc --unwind N --unwinding-assertions',
+            'trusted_base': sorted(trusted) + ['CBMC 6.11.0 front end, DFCC instrumentation and the CaDiCaL SAT solver', 'LP64, two\'s complement, arithmetic >> on negative ints, IEEE-754 binary32 RNE'],
             'functions_under_contract': sorted(fns),
             'groups': group_ev,
             'bounded_obligations': bounded_obl, 'bounded_discharged': bounded_dis,
